@@ -92,6 +92,7 @@ type treeGen struct {
 	idless  bool // several id-less children with the same tag under one parent, id-less children removed
 	reorder bool // id-carrying children may change their order
 	stlattr bool // attributes on the SegmentTimeline element itself may change
+	descr   bool // several descriptors with the same schemeIdUri under one parent; a kept descriptor may change its schemeIdUri
 }
 
 func (g *treeGen) id(p string) string { g.nextID++; return fmt.Sprintf("%s%d", p, g.nextID) }
@@ -141,6 +142,14 @@ func (g *treeGen) adaptationSet() *node {
 	}
 	if g.rng.Intn(3) > 0 {
 		a.Kids = append(a.Kids, &node{Tag: "Role", Attrs: [][2]string{{"schemeIdUri", "urn:mpeg:dash:role:2011"}, {"value", g.pick("main", "alternate")}}})
+	}
+	if g.descr {
+		for i := g.rng.Intn(3); i > 0; i-- {
+			a.Kids = append(a.Kids, &node{Tag: "Role", Attrs: [][2]string{{"schemeIdUri", "urn:mpeg:dash:role:2011"}, {"value", g.pick("caption", "subtitle", "dub", "commentary")}}})
+		}
+		for i := g.rng.Intn(3); i > 0; i-- {
+			a.Kids = append(a.Kids, &node{Tag: "SupplementalProperty", Attrs: [][2]string{{"schemeIdUri", g.pick("urn:x:a", "urn:x:b")}, {"value", g.id("s")}}})
+		}
 	}
 	if g.rng.Intn(5) == 0 {
 		a.Kids = append(a.Kids, &node{Tag: "EssentialProperty", Attrs: [][2]string{{"schemeIdUri", "http://dashif.org/guidelines/trickmode"}, {"value", "1"}}})
@@ -233,6 +242,9 @@ func (g *treeGen) mutate(n *node, depth int) {
 	case "SegmentTimeline":
 		g.mutateS(n)
 		return
+	}
+	if g.descr && n.Tag == "SupplementalProperty" && rng.Intn(4) == 0 {
+		n.setAttr("schemeIdUri", g.pick("urn:x:a", "urn:x:b", "urn:x:c"))
 	}
 	if len(n.Kids) == 0 {
 		if n.Text != "" && rng.Intn(3) == 0 {
